@@ -14,9 +14,9 @@ use serde_json::json;
 static HASH_ITER_MISMATCH: std::sync::atomic::AtomicU64 = std::sync::atomic::AtomicU64::new(0);
 
 pub fn fv_configs(thorough: bool) -> Vec<(u32, u32)> {
-    let mut v = vec![(1u32, 1000u32), (3, 200)];
+    let mut v = vec![(1u32, 1000u32), (3, 200), (4, 3)];
     if thorough {
-        v.extend(vec![(2, 7), (8, 10000), (16, 64), (5, 3)]);
+        v.extend(vec![(2, 7), (8, 10000), (16, 64), (5, 3), (2, 0)]);
     }
     v
 }
@@ -86,7 +86,8 @@ pub fn check_fv(pool: &ProbePool, ov: &[(usize, u32, u32)], c: &FvCase) -> Verdi
     let total: u64 = 1u64 << c.levels.iter().map(|l| l.1).sum::<u32>();
     let counter = c.counter % total;
     let blob = hss::private_key_blob(&c.levels, counter, &seed);
-    let mut msg = gen::expand(c.tag, c.len);
+    // tags from 0x7000_0000 on: an all-zero message (a too-short one then looks like a bare trailer)
+    let mut msg = if c.tag >= 0x7000_0000 { vec![0u8; c.len] } else { gen::expand(c.tag, c.len) };
     let too_short = c.len <= n;
     if !too_short {
         let l = msg.len();
@@ -237,6 +238,7 @@ pub fn run(ctx: &Ctx) {
                     // negatives
                     if si == 0 {
                         for len in [0usize, 1, n - 1, n] {
+                            cases.push(FvCase { config: name.clone(), hash: h, levels: levels.clone(), counter: 1, len, tag: 0x7000_0000 + len as u64, dirty_trailer: None, accept: true, rep: 0, aux_budget: None });
                             cases.push(FvCase { config: name.clone(), hash: h, levels: levels.clone(), counter: 1, len, tag: len as u64, dirty_trailer: None, accept: true, rep: 0, aux_budget: None });
                         }
                         for i in 0..n {
